@@ -149,7 +149,9 @@ macro_rules! bool_str_row {
             let ob2: Option<bool> = Cast::<Option<bool>>::cast(Some(x));
             let os: Option<$S> = Cast::<Option<$S>>::cast(Some(b));
             let os2: Option<$S> = Cast::<Option<$S>>::cast(b);
-            if back != b || ob != Some(b) || ob2 != Some(b) || os != Some(x) || os2 != Some(x) {
+            let back_o: bool = Cast::<bool>::cast(Some(x));
+            let from_ob: $S = Cast::<$S>::cast(Some(b));
+            if back != b || back_o != b || from_ob != x || ob != Some(b) || ob2 != Some(b) || os != Some(x) || os2 != Some(x) {
                 return fail(format!("cast:{}<->bool", name), format!("{} round trip through {}: {:?} {:?} {:?} {:?}", b, name, back, ob, ob2, os));
             }
         }
@@ -195,6 +197,22 @@ fn bool_string_table() -> CheckResult {
     bool_str_row!(isize, pool_isize());
     bool_str_row!(f32, pool_f32());
     bool_str_row!(f64, pool_f64());
+    // a null Option<bool> becomes the float null, and the float null becomes a null Option<bool>
+    let (a, b): (f64, f32) = (Cast::<f64>::cast(None::<bool>), Cast::<f32>::cast(None::<bool>));
+    if !a.is_nan() || !b.is_nan() {
+        return fail("cast:Option<bool>->float:none", format!("None::<bool> cast to f64 / f32 = {:?} / {:?}, expected NaN", a, b));
+    }
+    let (a, b): (Option<bool>, Option<bool>) = (Cast::<Option<bool>>::cast(f64::NAN), Cast::<Option<bool>>::cast(f32::NAN));
+    if a.is_some() || b.is_some() {
+        return fail("cast:float->Option<bool>:nan", format!("NaN cast to Option<bool> = {:?} / {:?}, expected None", a, b));
+    }
+    for v in [Some(false), Some(true)] {
+        let (a, b): (f64, f32) = (Cast::<f64>::cast(v), Cast::<f32>::cast(v));
+        let want = v.unwrap() as u8 as f64;
+        if a != want || b as f64 != want {
+            return fail("cast:Option<bool>->float", format!("{:?} cast to f64 / f32 = {:?} / {:?}", v, a, b));
+        }
+    }
     for b in [false, true] {
         let s: String = Cast::<String>::cast(b);
         let back: bool = Cast::<bool>::cast(s.clone());
